@@ -1013,6 +1013,12 @@ func (r *Runner) runQueries() {
 				m.fail("C17", "status %s %s: got %s want %s %s", x.iface, head, x.ans.text(), want.text(), x.ans.Note)
 			case x.ans.Line != want.Line:
 				m.fail("C17", "content %s %s: got [%s] stored [%s]", x.iface, head, x.ans.Line, want.Line)
+				if q.Kind == "binds" && q.Addr != 0 {
+					// the owner-filtered listing is the module's own reading of its owner index (0x04):
+					// when it differs from the stored bindings the index is not consistent as read (C15)
+					m.evals["C15"]++
+					m.fail("C15", "bindings of service %d listed through the owner index for owner %d [%s] differ from the stored bindings [%s]", q.Svc, q.Addr, x.ans.Line, want.Line)
+				}
 			case !sameRecs(x.ans.Recs, want.Recs):
 				m.fail("C17", "records %s %s: same projection [%s] but the returned records differ from the stored ones (bytes or order)", x.iface, head, want.Line)
 			}
